@@ -18,6 +18,7 @@ import (
 func dump(args []string) int {
 	fs := flag.NewFlagSet("dump", flag.ExitOnError)
 	fn := fs.String("func", "", "pkg.Func or pkg.Type.Method (module-relative, root package is '.')")
+	key := fs.Int("key", -1, "pin input byte 0 of parameter src to this value and use the decoder hooks")
 	fs.Parse(args)
 	prog, err := load.Load(load.RepoDir(), "amd64")
 	if err != nil {
@@ -41,8 +42,14 @@ func dump(args []string) int {
 	}
 	ctx := &rules.Ctx{P: prog, R: report.NewRun("dump", "quick", 0)}
 	in := ctx.Interp()
+	if *key >= 0 {
+		rules.DebugDecHooks(ctx, in, *key)
+	}
 	res, mem, _ := in.Run(f, nil, nil)
 	for _, ev := range in.Events {
+		if ev.Kind == "return" && ev.Frame.Parent != nil {
+			continue
+		}
 		var as []string
 		for _, a := range ev.Args {
 			as = append(as, a.Key())
